@@ -3,107 +3,30 @@
 (* C28 - selectors implement lookback, staleness and range windows; offset *)
 (* and @ move the windows; subqueries evaluate at multiples of their step. *)
 (*                                                                         *)
-(* The module is a generator + oracle:                                     *)
-(*   stage "data"   AppendSample(s,dt,kd) one storage.Appender.Append /      *)
-(*                                      AppendHistogram call (irregular    *)
-(*                                      spacing, stale markers, NaN,       *)
-(*                                      native histograms), then Seal      *)
-(*                                      (Commit)                           *)
-(*   stage "query"  MkVS / WrapRange / WrapCall / WrapSub build one        *)
-(*                  well-typed expression bottom-up (the productions of    *)
-(*                  generated_parser.y that C28 talks about)               *)
+(* Generator + oracle.  Builder.tla fills a store and builds an expression; *)
+(* this module adds                                                        *)
 (*   Evaluate(t,lb) Engine.NewInstantQuery(..., ts = t) with lookback lb   *)
 (*   Finish         Query.Exec: `res` carries the value predicted by the   *)
 (*                  REFERENCE semantics (PromqlEval!Eval); the harness     *)
 (*                  compares the real engine's answer with it.             *)
 (* Besides, TLC checks on every generated case that the transcription of   *)
 (* the engine's algorithm (PromqlEngine!ImplInstantQuery: PreprocessExpr,  *)
-(* setOffsetForAtModifier, subqueryTimeRange, vectorSelectorSingle,        *)
-(* matrixIterSlice) computes the same value as the reference (ImplAgrees). *)
+(* select hints, setOffsetForAtModifier, subqueryTimeRange,                *)
+(* vectorSelectorSingle, matrixIterSlice), with the two proposed repairs,  *)
+(* computes the same value as the reference (ImplAgrees), and that the     *)
+(* code as it is deviates only as the known findings say.                  *)
 (***************************************************************************)
-EXTENDS PromqlEngine, TLC, Json
+EXTENDS Builder, TLC, Json
 
-CONSTANTS Series,      \* subset of {"a","b"}
-          MaxSamples,  \* samples per series
-          Gaps,        \* spacing between consecutive samples of a series
-          FirstT,      \* time of the slot before the first possible sample
-          MaxT,        \* last sample time
-          Kinds,       \* subset of {"f","n","i","sf","h","sh"}
-          Sels,        \* sets of series selected by the matchers
-          Offs, Ats,   \* selector offsets / @ modifiers
-          Ranges,      \* range selector durations
-          Funcs,       \* range functions used by WrapCall
-          SqRanges, SqSteps, SqOffs, SqAts,
-          EvalTimes, Lookbacks, DefStep,
-          MaxWraps,    \* bound on Wrap* actions per expression
+CONSTANTS EvalTimes, Lookbacks, DefStep,
           EmitMode     \* "all" | "none"
 
-VARIABLES store, expr, stage, nwr, et, elb, res
+VARIABLES et, elb, res
 
 vars == <<store, expr, stage, nwr, et, elb, res>>
 View == <<store, expr, stage, et, elb>>
 
-None == [k |-> "none"]
-SBase(s) == IF s = "a" THEN 10 ELSE 20
-
-\* value of the n-th sample of series s with kind kd; ids are unique per store so that the
-\* observed value identifies the selected sample
-SampleOf(s, n, t, kd) ==
-  CASE kd = "f"  -> [t |-> t, h |-> FALSE, v |-> Int2V(SBase(s) + n)]
-    [] kd = "n"  -> [t |-> t, h |-> FALSE, v |-> NaN]
-    [] kd = "i"  -> [t |-> t, h |-> FALSE, v |-> PInf]
-    [] kd = "sf" -> [t |-> t, h |-> FALSE, v |-> Stale]
-    [] kd = "h"  -> [t |-> t, h |-> TRUE,  v |-> Int2V(SBase(s) + n)]
-    [] kd = "sh" -> [t |-> t, h |-> TRUE,  v |-> Stale]
-
-Init == /\ store = [s \in Series |-> <<>>]
-        /\ expr = None
-        /\ stage = "data"
-        /\ nwr = 0
-        /\ et = 0 /\ elb = 0
-        /\ res = None
-
-\* storage.Appender.Append / AppendHistogram; series are filled in name order (appends to
-\* different series commute)
-AppendSample(s, dt, kd) ==
-  /\ stage = "data"
-  /\ Len(store[s]) < MaxSamples
-  /\ \A s2 \in Series : SBase(s2) > SBase(s) => store[s2] = <<>>
-  /\ LET last == IF store[s] = <<>> THEN FirstT ELSE store[s][Len(store[s])].t
-         t == last + dt IN
-     /\ t <= MaxT
-     /\ store' = [store EXCEPT ![s] = Append(@, SampleOf(s, Len(@) + 1, t, kd))]
-  /\ UNCHANGED <<expr, stage, nwr, et, elb, res>>
-
-Seal == /\ stage = "data"
-        /\ \E s \in Series : store[s] # <<>>
-        /\ stage' = "query"
-        /\ UNCHANGED <<store, expr, nwr, et, elb, res>>
-
-MkVS(sel, off, at) ==
-  /\ stage = "query" /\ expr = None
-  /\ expr' = [k |-> "vs", sel |-> sel, off |-> off, at |-> at]
-  /\ UNCHANGED <<store, stage, nwr, et, elb, res>>
-
-WrapRange(r) ==
-  /\ stage = "query" /\ expr.k = "vs" /\ nwr < MaxWraps
-  /\ expr' = [k |-> "ms", vs |-> expr, r |-> r]
-  /\ nwr' = nwr + 1
-  /\ UNCHANGED <<store, stage, et, elb, res>>
-
-WrapCall(f) ==
-  /\ stage = "query" /\ expr # None /\ nwr < MaxWraps
-  /\ IF f = "timestamp" THEN ExprType(expr) = "vector" ELSE ExprType(expr) = "matrix"
-  /\ expr' = [k |-> "call", f |-> f, arg |-> expr]
-  /\ nwr' = nwr + 1
-  /\ UNCHANGED <<store, stage, et, elb, res>>
-
-WrapSub(r, st, off, at) ==
-  /\ stage = "query" /\ expr # None /\ nwr < MaxWraps
-  /\ ExprType(expr) = "vector"
-  /\ expr' = [k |-> "sq", e |-> expr, r |-> r, st |-> st, off |-> off, at |-> at]
-  /\ nwr' = nwr + 1
-  /\ UNCHANGED <<store, stage, et, elb, res>>
+Init == BuildInit /\ et = 0 /\ elb = 0 /\ res = None
 
 Evaluate(t, lb) ==
   /\ stage = "query" /\ expr # None
@@ -123,18 +46,14 @@ Finish ==
      res' = [store |-> store, q |-> expr, t |-> et, lb |-> elb, ds |-> DefStep,
              ty |-> ExprType(expr), keep |-> KeepsName(expr),
              out |-> ref,
+             ok |-> Impl(AllFixes) = ref,
              \* known deviations of the code that change this case's value, and the value the
              \* transcription of the code as it is computes (only when it differs)
              kf |-> KFLabel(asIs, Impl({"kf1"}), Impl({"kf2"}), ref),
              impl |-> IF asIs = ref THEN <<>> ELSE asIs]
   /\ UNCHANGED <<store, expr, nwr, et, elb>>
 
-Next == \/ \E s \in Series, dt \in Gaps, kd \in Kinds : AppendSample(s, dt, kd)
-        \/ Seal
-        \/ \E sel \in Sels, off \in Offs, at \in Ats : MkVS(sel, off, at)
-        \/ \E r \in Ranges : WrapRange(r)
-        \/ \E f \in Funcs \cup {"timestamp"} : WrapCall(f)
-        \/ \E r \in SqRanges, st \in SqSteps, off \in SqOffs, at \in SqAts : WrapSub(r, st, off, at)
+Next == \/ BuildNext /\ UNCHANGED <<et, elb, res>>
         \/ \E t \in EvalTimes, lb \in Lookbacks : Evaluate(t, lb)
         \/ Finish
 
@@ -143,9 +62,7 @@ Spec == Init /\ [][Next]_vars
 -----------------------------------------------------------------------------
 (* Properties checked by TLC on the design.                                 *)
 
-Sorted(S) == \A i \in 1..(Len(S) - 1) : S[i].t < S[i + 1].t
-TypeOK == /\ \A s \in Series : Sorted(store[s])
-          /\ stage \in {"data", "query", "eval", "done"}
+TypeOK == BuildTypeOK
 
 \* sanity of the reference itself: an instant vector has at most one point per series, stamped
 \* with the evaluation time; matrix points are strictly increasing in time and never stale
@@ -159,50 +76,13 @@ RefWellFormed ==
 
 \* the engine's algorithm (transcribed in PromqlEngine.tla), with the two proposed one-line
 \* repairs of KF-C28-1 and KF-C28-2 applied, computes the reference value ...
-ImplAgrees == stage = "done" => Impl(AllFixes) = res.out
+ImplAgrees == stage = "done" => res.ok
 
-\* ... and without them it differs from the reference only in the ways the findings describe:
-\* kf1 needs timestamp() over a selector with both @ and offset
-RECURSIVE HasTimestampAtOffset(_)
-HasTimestampAtOffset(e) ==
-  CASE e.k = "vs" -> FALSE
-    [] e.k = "ms" -> FALSE
-    [] e.k = "sq" -> HasTimestampAtOffset(e.e)
-    [] e.k = "call" -> \/ (e.f = "timestamp" /\ e.arg.k = "vs" /\ e.arg.at[1] # "none" /\ e.arg.off # 0)
-                       \/ HasTimestampAtOffset(e.arg)
-\* kf2 needs an @ modifier somewhere below a subquery that has an offset or an @ of its own
-RECURSIVE HasAt(_)
-HasAt(e) ==
-  CASE e.k = "vs" -> e.at[1] # "none"
-    [] e.k = "ms" -> e.vs.at[1] # "none"
-    [] e.k = "sq" -> e.at[1] # "none" \/ HasAt(e.e)
-    [] e.k = "call" -> HasAt(e.arg)
-RECURSIVE HasShiftedSubqueryOverAt(_)
-HasShiftedSubqueryOverAt(e) ==
-  CASE e.k = "vs" -> FALSE
-    [] e.k = "ms" -> FALSE
-    [] e.k = "sq" -> ((e.off # 0 \/ e.at[1] # "none") /\ HasAt(e.e)) \/ HasShiftedSubqueryOverAt(e.e)
-    [] e.k = "call" -> HasShiftedSubqueryOverAt(e.arg)
+\* ... and without them it differs from the reference only in the ways the findings describe
 KnownDeviationsOnly ==
   stage = "done" =>
     /\ res.kf \in {"kf1", "kf1+kf2"} => HasTimestampAtOffset(expr)
     /\ res.kf \in {"kf2", "kf1+kf2"} => HasShiftedSubqueryOverAt(expr)
-
------------------------------------------------------------------------------
-(* Constant values that a .cfg cannot spell (tuples, sets of sets).         *)
-SelsAB == {{"a"}, {"a", "b"}}
-SelsBoth == {{"b"}, {"a", "b"}}
-SelsA == {{"a"}}
-Neg2 == -2
-Neg3 == -3
-OffsQuick == {0, 1, -2}
-OffsBig == {0, 1, 3, -1, -2}
-SqOffsQuick == {0, 1}
-SqOffsBig == {0, 2, -1}
-AtsNone == {NoAt}
-AtsQuick == {NoAt, AtAbs(4)}
-AtsMid == {NoAt, AtAbs(4), AtStart}
-AtsBig == {NoAt, AtAbs(2), AtAbs(5), AtStart, AtEnd}
 
 -----------------------------------------------------------------------------
 (* Emission.                                                                *)
